@@ -63,6 +63,32 @@ theorem roundtrip_ss_via_cells_io (clusterAt : Nat → Nat) (cl : Str → Nat) (
     obtain ⟨c, hc, e⟩ := encodeFrom_text_mem (ssDelta legacy) cs {} g hgm
     exact hg c hc r (e ▸ hr)
 
+/-- **The hypothesis `Agrees` can always be met**: for any oracle on the remaining runes and any string of scalar values, the
+    byte-offset oracle "decode what is left of the stream and ask `cl`" agrees with it — so `roundtrip_cells_io` is a statement
+    about every rune-level oracle (`roundtrip_cells_io_any`). -/
+theorem agrees_decoded (cl : Str → Nat) (rs : Str) (hs : ∀ r ∈ rs, IsScalar r) :
+    Agrees (fun pos => cl (Model.ParserUtf8.decodeRunes ((utf8 rs).drop pos))) cl 0 rs := by
+  intro k
+  have h1 : utf8 rs = utf8 (rs.take k) ++ utf8 (rs.drop k) := by rw [← utf8_append, List.take_append_drop]
+  simp only [Nat.zero_add]
+  rw [h1, List.drop_left]
+  have : Model.ParserUtf8.decodeRunes (utf8 (rs.drop k)) = rs.drop k :=
+    Lemmas.ParserUtf8.decodeRunes_encodeAll (rs.drop k) (fun r hr => hs r (List.mem_of_mem_drop hr))
+  rw [show utf8 (rs.drop k) = (rs.drop k).flatMap Model.ParserUtf8.encodeRune from rfl] at this ⊢
+  rw [this]
+
+theorem roundtrip_cells_io_any (cl : Str → Nat) (legacy : Bool) (cs : List (Cell Str))
+    (hcs : ∀ c ∈ cs, c.st.wf) (hg : ∀ c ∈ cs, ∀ r ∈ c.g, IsScalar r) (ht : TextOK cl (encodeCells legacy cs)) :
+    parseStyledIO (fun pos => cl (Model.ParserUtf8.decodeRunes ((utf8 (encodeCellsB legacy cs)).drop pos)))
+      (utf8 (encodeCellsB legacy cs)) = .ok cs := by
+  apply roundtrip_cells_io _ cl legacy cs hcs hg ht
+  apply agrees_decoded
+  rw [C18Bytes.encodeCells_bytes_eq]
+  apply bytesOfToks_scalar
+  intro g hgm r hr
+  obtain ⟨c, hc, e⟩ := encodeFrom_text_mem (encodeDelta legacy) cs {} g hgm
+  exact hg c hc r (e ▸ hr)
+
 /-- **The reader `ParseStyledString` builds in the current source is the whole-string reader** (regenerated on this run:
     `ansi.NewParser` gets `bufio.NewReaderSize(strings.NewReader(s), len(s))`): the model that follows the source
     (`parseStyledSrc`, which the driver runs on the exact strings of the `decb` stream) is `parseStyledIO`, the function the
